@@ -176,11 +176,16 @@ type c13Oracle struct {
 	classes map[string]bool
 	events  int
 	invites map[string]map[string]bool // session key -> lower-case channel -> invitation seen, not used, channel alive
+	// bans is the oracle's own reading of every ban mask it saw being set: lower-case channel ->
+	// mask -> regexp sources (the mask with * as wildcard, and, for a mask that ends in a session
+	// reference robust/0x<id>, the same with the remote address that session had at that moment)
+	bans map[string]map[string][]string
 }
 
 func (o *c13Oracle) begin(i *IRCServer, c *hcase, rt *rapid.T) {
 	o.classes = map[string]bool{}
 	o.invites = map[string]map[string]bool{}
+	o.bans = map[string]map[string][]string{}
 }
 
 func (o *c13Oracle) pre(i *IRCServer, idx int, e ircgen.Entry) { o.preP = takePriv(i) }
@@ -218,6 +223,57 @@ func (o *c13Oracle) post(i *IRCServer, idx int, e ircgen.Entry, outs []out, pan 
 			if pre.chans[cn] != nil && post.chans[cn] == nil {
 				delete(inv, cn) // the channel is gone
 			}
+		}
+	}
+	// ban masks appearing and disappearing
+	for cn := range o.bans {
+		if post.chans[cn] == nil {
+			delete(o.bans, cn)
+		}
+	}
+	for cn, qc := range post.chans {
+		have := map[string]bool{}
+		for _, m := range qc.bans {
+			have[m] = true
+		}
+		for m := range o.bans[cn] {
+			if !have[m] {
+				delete(o.bans[cn], m)
+			}
+		}
+		before := map[string]bool{}
+		if pc := pre.chans[cn]; pc != nil {
+			for _, m := range pc.bans {
+				before[m] = true
+			}
+		}
+		for m := range have {
+			if before[m] || e.Kind != "irc" {
+				continue
+			}
+			actor := pre.sess[fmt.Sprintf("c:%d", e.Session)]
+			if actor == nil || actor.server {
+				continue // bans set by services: not modelled
+			}
+			src := strings.Replace(regexp.QuoteMeta(m), "\\*", ".*", -1)
+			res := []string{src}
+			if k := strings.Index(m, "robust/0x"); k >= 0 {
+				if id, err := strconv.ParseUint(m[k+len("robust/0x"):], 16, 64); err == nil {
+					if ref := pre.sess[fmt.Sprintf("c:%d", id)]; ref != nil {
+						addr := ref.remote
+						if id == e.Session && e.Addr != "" {
+							addr = e.Addr
+						}
+						if addr != "" {
+							res = append(res, strings.Replace(regexp.QuoteMeta(m[:k]), "\\*", ".*", -1)+regexp.QuoteMeta(addr))
+						}
+					}
+				}
+			}
+			if o.bans[cn] == nil {
+				o.bans[cn] = map[string][]string{}
+			}
+			o.bans[cn][m] = res
 		}
 	}
 	for k, ps := range post.sess {
@@ -577,6 +633,21 @@ func (o *c13Oracle) judge(pre, post *privSnap, idx int, e ircgen.Entry, outs []o
 						sig = "join-despite-ban-via-captcha"
 					}
 					if f := fail(sig, "joined %s although ban %q matches %s / %s", pc.name, pc.bans[bi], uh, uhAddr); f != nil {
+						return f
+					}
+					break
+				}
+			}
+			// ... and of the oracle's own reading of the masks
+			for m, srcs := range o.bans[cn] {
+				hit := false
+				for _, src := range srcs {
+					if re, err := regexp.Compile("^(?:" + src + ")$"); err == nil && (re.MatchString(uh) || re.MatchString(uhAddr)) {
+						hit = true
+					}
+				}
+				if hit {
+					if f := fail("join-despite-ban-mask", "joined %s although the ban mask %q, set while its session reference resolved to %q, matches %s / %s", pc.name, m, srcs, uh, uhAddr); f != nil {
 						return f
 					}
 					break
